@@ -655,6 +655,14 @@ class Gen(object):
                     else:
                         v = draw_value(rng, ty, 0)
                     items.append([self.sp(name), v])
+                if items and rng.random() < 0.12:
+                    # one filter naming an attribute twice, under two spellings: both constraints hold for one value
+                    sp0, v0 = rng.choice(items)
+                    name = self.sch.declared(kind, sp0)
+                    others = [x for x in spellings(name) if x not in [i[0] for i in items]] if name else []
+                    if others:
+                        ty = self.sch.attr_type(kind, name)
+                        items.append([rng.choice(others), v0 if rng.random() < 0.4 else draw_value(rng, ty, 0)])
                 q.append([f, items])
             elif f == 'lam':
                 name, ty = rng.choice(attrs)
